@@ -27,12 +27,17 @@ pub fn main(args: &[String]) -> i32 {
     let cfg: Value = serde_json::from_str(input.lines().next().unwrap()).unwrap();
     let table = dynops::table_from_json(&cfg["table"]);
     let texts: Vec<String> = cfg["texts"].as_array().unwrap().iter().map(uncps).collect();
+    // a second operator table of the same size over the same data type, used by the odd threads
+    let table2 = dynops::table_from_json(&cfg["table2"]);
+    let texts2: Vec<String> = cfg["texts2"].as_array().unwrap().iter().map(uncps).collect();
     let ftexts: Vec<String> = cfg["ftexts"].as_array().unwrap().iter().map(|t| t.as_str().unwrap().to_string()).collect();
     let barrier = Arc::new(Barrier::new(nthreads));
     // phase 1: all threads parse at once (first use of the regex statics)
     let mut handles = vec![];
     for tid in 0..nthreads {
-        let (table, texts, ftexts, barrier) = (table.clone(), texts.clone(), ftexts.clone(), barrier.clone());
+        let second = tid % 2 == 1;
+        let (table, texts, ftexts, barrier) = (if second { table2.clone() } else { table.clone() }, if second { texts2.clone() } else { texts.clone() }, ftexts.clone(), barrier.clone());
+        let table_json = if second { cfg["table2"].clone() } else { cfg["table"].clone() };
         handles.push(std::thread::spawn(move || {
             dynops::set_table(table);
             let mut ev = vec![];
@@ -54,7 +59,11 @@ pub fn main(args: &[String]) -> i32 {
                     };
                     let mut run = run;
                     run["entry"] = json!(if (tid + k) % 2 == 0 { "flat" } else { "deep" });
-                    ev.push(json!({"tid": tid, "seq": seq, "act": "parse", "text": cps(t), "expect": "any", "runs": [run]}));
+                    let mut e = json!({"tid": tid, "seq": seq, "act": "parse", "text": cps(t), "expect": "any", "runs": [run]});
+                    if second {
+                        e["table"] = table_json.clone();
+                    }
+                    ev.push(e);
                 }
                 for ft in &ftexts {
                     seq += 1;
